@@ -139,7 +139,7 @@ Proof. exact ConstTie.posimpl_constants_dumped. Qed.
 (* ---- appended by tools/mkprops.py: repetition corollaries ---- *)
 (** repetition corollaries: the answer is monotone in n, needs two earlier plies per repetition, is false on an empty history, and is bounded by the half-move clock in move-only histories *)
 From Coq Require Import NArith ZArith List Bool.
-From FG Require Import Geom Rules FenSpec PosImpl PosTabs PosProofsJ DrawCorollaries.
+From FG Require Import Geom Rules FenSpec PosImpl PosTabs PosProofsJ PosProofs DrawCorollaries.
 Import ListNotations.
 
 Theorem C10_repetition_monotone :
@@ -163,7 +163,16 @@ Theorem C10_repetition_clock_bound :
          chain (i_hmc p) (i_hist p) -> check_repetitions p n = true -> (2 * (n - 1) <= i_hmc p)%Z.
 Proof. exact repetition_clock_bound. Qed.
 
+Theorem C10_repetition_clock_bound_applies :
+  exists p : ipos,
+           after_ops start_pos shuffle8 = Some p /\
+           (0 <= i_hmc p)%Z /\
+           chain (i_hmc p) (i_hist p) /\
+           check_repetitions p 2 = true /\ check_repetitions p 3 = false /\ i_hmc p = 8%Z.
+Proof. exact repetition_clock_bound_applies. Qed.
+
 Print Assumptions C10_repetition_monotone.
 Print Assumptions C10_repetition_needs_history.
 Print Assumptions C10_repetition_fresh_position.
 Print Assumptions C10_repetition_clock_bound.
+Print Assumptions C10_repetition_clock_bound_applies.
